@@ -242,16 +242,21 @@ def run_meta(g, acc):
                             for fuse in (None, 'hard', 'meta'):
                                 if fuse and r < 3:
                                     continue
-                                acc.check_time()
-                                case = {'kind': 'meta', 'sym': sym, 's': sig, 'lazy': lazy, 'm': mb, 'n': n, 'drop_a': drop_a, 'drop_b': drop_b,
-                                        'level': lvl, 'fuse': fuse}
-                                st, msg = meta_case(case, cfg, acc.seed)
-                                acc.ev(repr(case), st == 'ok', (st, lvl))
-                                acc.cnt['meta_' + st] += 1
-                                if st == 'viol':
-                                    acc.fail(case, msg)
-                                elif acc.evaluations % 211 == 0:
-                                    acc.sample(case)
+                                for lazy_b in ((False, True) if (lazy and not fuse) else (False,)):
+                                    acc.check_time()
+                                    case = {'kind': 'meta', 'sym': sym, 's': sig, 'lazy': lazy, 'm': mb, 'n': n, 'drop_a': drop_a, 'drop_b': drop_b,
+                                            'level': lvl, 'fuse': fuse, 'lazy_b': lazy_b}
+                                    for lazy_a in ((True, False) if lazy_b else (True,)):
+                                        case = dict(case, lazy_a=lazy_a)
+                                        st, msg = meta_case(case, cfg, acc.seed)
+                                        acc.ev(repr(case), st == 'ok', (st, lvl, lazy_b, lazy_a))
+                                        acc.cnt['meta_' + st] += 1
+                                        if lazy_b:
+                                            acc.cnt['meta_from_lazy_' + st] += 1
+                                        if st == 'viol':
+                                            acc.fail(case, msg)
+                                        elif acc.evaluations % 211 == 0:
+                                            acc.sample(case)
 
 
 def meta_case(case, cfg, seed):
@@ -271,16 +276,19 @@ def meta_case(case, cfg, seed):
     a2 = mk('a2', case['drop_a'])
     lazy = case['lazy']
     lvl = case['level']
+    if case.get('lazy_b') and lazy and not case['fuse']:
+        b = b.transpose(tuple(lazy))      # the meta itself comes from a lazily transposed tensor
     _, meta = yastn.split_data_and_meta(b.to_dict(level=lvl), squeeze=True)
     # the tensors to serialise may carry a pending transpose that leaves the legs in place (identical permuted legs)
-    if lazy and not case['fuse']:
+    if lazy and not case['fuse'] and case.get('lazy_a', True):
         a, a2 = a.transpose(tuple(lazy)), a2.transpose(tuple(lazy))
     # "a is contained in the structure of meta": judged on the plain (unfused) tensors
     pa, pb = plain['a'], plain['b']
     subset = set(pa.get_blocks_charge()) <= set(pb.get_blocks_charge())
     if lazy and not case['fuse']:
-        subset = set(a.consume_transpose().get_blocks_charge()) <= set(pb.get_blocks_charge()) and \
-            a.consume_transpose().get_signature() == pb.get_signature() and _legs_compatible(a, pb)
+        pbl = b.consume_transpose() if case.get('lazy_b') else pb
+        subset = set(a.consume_transpose().get_blocks_charge()) <= set(pbl.get_blocks_charge()) and \
+            a.consume_transpose().get_signature() == pbl.get_signature() and _legs_compatible(a, pbl)
 
     def vec(t):
         d = t.to_dict(level=lvl, meta=meta)
@@ -289,6 +297,8 @@ def meta_case(case, cfg, seed):
     st, va = TC.call(vec, a)
     if not subset and case['fuse'] and st == 'ok':
         subset = True      # hard fusion merges blocks: containment at the fused level is possible; the result must then be right
+    if case.get('lazy_b') and st == 'yerr':
+        return 'rejected', None      # a meta with a pending transpose may be refused; if accepted the round trip must be exact
     if not subset:
         if st == 'yerr':
             return 'rejected', None
